@@ -354,7 +354,10 @@ pub fn run_case(case: &AdfCase, specs: &[CallSpec], disabled: &Mutex<Vec<String>
         }
         let t = text.clone();
         let c2 = cs.clone();
-        let out = guarded(CALL_BUDGET_S, move || exec_call(&t, &c2, n));
+        // composed frameworks (up to 2^16 candidates per enumerate-and-check call in an unoptimised build) get a wider budget:
+        // a slow machine must not turn a long call into a "hang"
+        let budget = if COMPOSED.lock().unwrap().iter().any(|c| c.0 == case.id) { 3 * CALL_BUDGET_S } else { CALL_BUDGET_S };
+        let out = guarded(budget, move || exec_call(&t, &c2, n));
         let mut rec = json!({"c": cs.c, "b": cs.b.name(), "h": cs.h, "st": out.status(), "msg": out.msg(),
                              "r": [], "ch": "na", "seed": cs.seed.to_string(),
                              "script": cs.script.iter().map(|(r, b)| json!([r, b])).collect::<Vec<_>>()});
